@@ -326,3 +326,7 @@ Lemma exec_ok_example :
   bs "Exec=env BAMF_DESKTOP_FILE_HINT=/var/lib/snapd/desktop/applications/foo_app.desktop /snap/bin/foo.app %U" ++ [10] ++
   bs "Icon=/snap/foo/7/meta/gui/icon.png" ++ [10].
 Proof. vm_compute. reflexivity. Qed.
+
+(* the allowlist in the source is the pinned specification list (re-checked against the regenerated list on every run) *)
+Lemma allowlist_pinned : valid_line_alts = spec_line_alts.
+Proof. reflexivity. Qed.
